@@ -78,9 +78,9 @@ PROPS = {
     "C07": {
         "lean_modules": ["WP.Props.C07", "WP.Props.GrowthPath", "WP.Props.ReachGrowth", "WP.Props.PositionFees"],
         "lean_support": ["WP.Props.Reach", "WP.Props.SwapPath", "WP.Props.FeePath", "WP.Props.PathBase"],
-        "families": [("hist", 10000, 500000)],
+        "families": [("pmod", 20000, 1000000), ("hist", 10000, 500000)],
         "history": True,
-        "rule": "hist: random histories (40-100 ops after each `H init`) on a real Whirlpool (fixed / dynamic / mixed tick arrays; Anchor or Pinocchio liquidity path per op; fee accumulators started anywhere in u128 incl. just below wrap-around); the whole state digest is compared with the Lean model after every op and the implementation-side oracles (hist_oracle.rs) run after every op; non-trivial = a successful op; distinct by hash of (op line, clock)",
+        "rule": "pmod: one modify-liquidity on an ARBITRARY pool / position / bound-tick state (boundary-biased u128 values, fee growth inside numerically BELOW the position's checkpoint, i.e. wrapped accumulators) run by the Anchor managers and by the Pinocchio port on identical bytes and compared with each other and with the model's credit rule (added after seed C07_6: a checked instead of a wrapping subtraction in the Pinocchio port's fee delta, which a 10000-op history run did not reach); hist: random histories (40-100 ops after each `H init`) on a real Whirlpool (fixed / dynamic / mixed tick arrays; Anchor or Pinocchio liquidity path per op; fee accumulators started anywhere in u128 incl. just below wrap-around); the whole state digest is compared with the Lean model after every op and the implementation-side oracles (hist_oracle.rs) run after every op; non-trivial = a successful op; distinct by hash of (op line, clock)",
         "trusted": ["the composition of the per-step lemmas along a whole swap, and for every swap of every history, is proved in the model (Growth.swap_fee_growth, Reach.history_fee_growth); the chain from growth-inside to a position's credited fees across several updates is checked by the shadow-ledger oracle (exact pro-rata shares from the step trace) and the model correspondence"],
     },
     "C11": {
